@@ -289,8 +289,9 @@ int main(int argc, char** argv) {
       HC_TRY(sort(c));
       emit(objs, "sort", o, 0, 0, 0, 0, "", hc_exc, 0);
     } else if (hc_is(0, "sortby")) {           /* sortby <o> gt|lt : sort_by with a caller-chosen comparison */
-      HC_TRY(sort_by(c, hc_is(2, "gt") ? gt : lt));
-      emit(objs, hc_is(2, "gt") ? "sortbygt" : "sort", o, 0, 0, 0, 0, "", hc_exc, 0);
+      int desc = hc_is(2, "gt") || hc_is(2, "ge");       /* le / ge: comparisons that hold for equal arguments too */
+      HC_TRY(sort_by(c, hc_is(2, "gt") ? gt : hc_is(2, "ge") ? ge : hc_is(2, "le") ? le : lt));
+      emit(objs, desc ? "sortbygt" : "sort", o, 0, 0, 0, 0, "", hc_exc, 0);
     } else if (hc_is(0, "assign")) {
       int src = (int)hc_int(2);
       HC_TRY(assign(c, objs[src].obj));
